@@ -118,6 +118,14 @@ func realClusters(r *ev.Run, depth int) {
 		det := map[string]interface{}{"scenario": cx.PathString(sc.Events), "trailingLogs": sc.TrailingLogs, "events": sc.Events}
 		res, bad := cx.Run(filepath.Join(base, fmt.Sprintf("cl%d", i)), sc)
 		r.Eval(1)
+		if strings.HasPrefix(bad, "the cluster process died") {
+			// a failure is believed only if it reproduces: the same scenario runs once more (2 of ~3 700
+			// scenarios of a thorough run died once and passed on every repetition; the stderr tail of
+			// such a run is kept in the evidence for whoever wants to chase it)
+			r.Extra("real_cluster_child_died_once", 1)
+			r.Outcome("real cluster child died once: " + cx.PathString(sc.Events) + " :: " + bad)
+			res, bad = cx.Run(filepath.Join(base, fmt.Sprintf("cl%d-retry", i)), sc)
+		}
 		slow := bad == "the cluster process hangs"
 		if res != nil {
 			for _, p := range res.Problems {
